@@ -46,6 +46,10 @@ def plant_refs(t, r):
         src = [n for n in ided if n is not l]
         if src and r.random() < 0.6:
             extra.setdefault(id(l), []).append("text: %s.windowTitle" % r.choice(src)["id"])     # windowTitle has a NOTIFY signal (QLabel.text has none)
+    # handlers on actions: the header then names the action, wherever it stands in the tree
+    for a in [n for n in ns if n["cls"] == "QAction" and not n["sep"]]:
+        if r.random() < 0.5:
+            extra.setdefault(id(a), []).append('onTriggered: console.log("t")')
     return extra
 
 
@@ -118,7 +122,8 @@ def run(chk):
         for s in ("anon", "adversarial", "adversarial", "some", "members"):
             items.append(("n%d_%s%d" % (n, s, len(items)), T.assign_ids(t, s, r)))
     for n, t in enumerate(shapes):
-        for s in (("adversarial", "dup") if n % 3 else ("anon", "adversarial", "actions", "members")):
+        nested_sep = any(x["sep"] and x["kids"] for x, _ in T.nodes(t))
+        for s in (("adversarial", "dup") if n % 3 and not nested_sep else ("anon", "adversarial", "actions", "members")):
             if s == "actions" and not any(T.kind(x["cls"]) in ("action", "menu") for x, _ in T.nodes(t)):
                 continue
             items.append(("s%d_%s%d" % (n, s, len(items)), T.assign_ids(t, s, r)))
@@ -158,8 +163,9 @@ def run(chk):
             chk.violation("admissible document whose references all name declared objects of a compatible class is rejected: %s" % [d["msg"] for d in run_.get("diags", [])][:3],
                           {"qml": qml, "diags": run_.get("diags")})
             continue
-        if not e["accepted"] or not accepted:
+        if not accepted:
             continue        # admissibility of shapes is C11's business; references to ids of incompatible class are rejected rightly
+        # (a document the tree model calls inadmissible but the tool accepts is C11's finding; its names and references are still judged here)
         ui = T.parse_ui(run_["ui"])
         decl = {}
         for el in ui["all"]:
@@ -168,7 +174,7 @@ def run(chk):
         for name, els in decl.items():
             if len(els) > 1:
                 probs.append("name %s declared %d times (%s)" % (name, len(els), [x["cls"] for x in els]))
-        diffs = [d for d in T.compare_form(e["form"], ui["root"]) if "name" in d]
+        diffs = [d for d in T.compare_form(e["form"], ui["root"]) if "name" in d] if e["accepted"] else []
         probs += diffs
         for el in ui["all"]:
             for a in el["adds"]:
